@@ -1,12 +1,7 @@
 mod c04;
-mod c05;
-mod c07;
 mod c24;
 mod c25;
 mod c27;
-mod c30;
-mod c31;
-mod c32;
 
 fn main() {
     let args: Vec<String> = std::env::args().skip(1).collect();
@@ -15,14 +10,9 @@ fn main() {
     let ctx = vcore::Ctx::new(&id, &args[1.min(args.len())..]);
     match id.as_str() {
         "C04" => c04::run(&ctx),
-        "C05" => c05::run(&ctx),
-        "C07" => c07::run(&ctx),
         "C24" => c24::run(&ctx),
         "C25" => c25::run(&ctx),
         "C27" => c27::run(&ctx),
-        "C30" => c30::run(&ctx),
-        "C31" => c31::run(&ctx),
-        "C32" => c32::run(&ctx),
         _ => {
             eprintln!("unknown property id {id:?}");
             std::process::exit(2);
